@@ -78,6 +78,11 @@ func run(r *mon.Run) {
 		}
 		spec := &gen.SXGSpec{Version: ver, ID: id, Method: "GET", Status: mon.Pick(g, []int{100, 200, 203, 301, 404, 599, 999, 7, 1000}), RecordSize: mon.Pick(g, []int{1, 16, 100, 4096, 16384})}
 		spec.URL = pathOfLen(g, "https://example.com/", urlLen)
+		if i%7 == 3 {
+			// URLs that a URL library would re-serialize differently: the format carries them as raw bytes
+			spec.URL = mon.Pick(g, []string{"https://example.com/caf\u00e9/", "https://example.com/a|b", "https://example.com/a b", "https://example.com/x#", "HTTPS://example.com/X", "https://EXAMPLE.com/", "https://example.com/%7euser/%2f",
+				"https://example.com:443/", "https://example.com/a/../b/./c", "https://example.com/?", "https://example.com/\"quoted\"", "https://example.com/\u65e5\u672c?q=\u00e9"})
+		}
 		spec.ValidityURL = pathOfLen(g, "https://example.com/v/", vurlLen)
 		if ver != version.Version1b3 {
 			spec.Method = mon.Pick(g, []string{"GET", "HEAD", "POST", "PUT", "get", ""})
@@ -231,6 +236,9 @@ func run(r *mon.Run) {
 		// 7. an exchange assembled and signed entirely by the reference must be accepted
 		if i%3 == 0 || r.Thorough {
 			ref2 := *ref
+			if i%7 == 3 {
+				ref2.URL = "https://example.com/reference-made" // the odd URL shapes are for the byte comparisons only; here the policy (same origin, parsable URL) applies
+			}
 			ref2.Method = "GET"
 			ref2.Status = 200
 			ref2.ReqHeaders = map[string]string{}
